@@ -29,7 +29,15 @@ func c12Docs() map[string]string {
 	s := ora.StdSkeletons(atoms)
 	rich1 := (&ora.DocModel{Skel: "S2", Top: append(append([]int{}, s[1].Top...), ora.AtomIndex(atoms, "PAGER")...), ArtC: append(append([]int{}, s[1].ArtC...), ora.AtomIndex(atoms, "TBLd", "FIG", "YTq")...)}).Render(atoms)
 	rich2 := (&ora.DocModel{Skel: "S1", Top: s[0].Top, ArtC: append(append([]int{}, s[0].ArtC...), ora.AtomIndex(atoms, "UL3", "JS1", "INL", "LBL", "LAZYs", "SCH2", "EMBp")...)}).Render(atoms)
-	return map[string]string{"min": min, "rich1": rich1, "rich2": rich2}
+	// every paragraph in a wrapper of its own (blocks are not siblings), legacy namespace prefix on the root
+	t2 := &ora.Tok{}
+	var wb strings.Builder
+	wb.WriteString("<html lang=\"en\" xmlns:ogp=\"http://ogp.me/ns#\"><head><title>" + ora.DefaultTitle + "</title><meta property=\"ogp:title\" content=\"T\"></head><body>")
+	for i := 0; i < 9; i++ {
+		wb.WriteString("<div class=\"w\"><div><p>" + t2.W(24) + "</p></div></div>")
+	}
+	wb.WriteString("</body></html>")
+	return map[string]string{"min": min, "rich1": rich1, "rich2": rich2, "wrapped": wb.String()}
 }
 
 type c12Thread struct {
@@ -53,6 +61,7 @@ func c12Scenarios() []c12Scenario {
 		{"S-c", []c12Thread{{"min", "apply-shared", 0, 0, true}, {"min", "apply-shared", 0, 0, true}, {"min", "apply-own", 30, 1, false}}},
 		{"S-d", []c12Thread{{"rich2", "apply-shared", 0, 0, true}, {"rich2", "reader", 0, 1, false}}},
 		{"S-e-log", []c12Thread{{"min", "apply-shared", 30, 1, false}, {"min", "apply-own", 30, 0, false}}},
+		{"S-f-wrapped", []c12Thread{{"wrapped", "apply-own", 0, 0, true}, {"wrapped", "apply-own", 0, 0, true}}},
 	}
 }
 
@@ -455,7 +464,9 @@ func c12RacePass(c *eng.Case) *eng.Outcome {
 	o.Execs = 1
 	fmt.Sscan(strings.TrimSpace(so.String()), &o.Execs)
 	text := se.String()
-	if strings.Contains(text, "DATA RACE") {
+	if strings.Contains(text, "fatal error: concurrent map") {
+		o.V("race-detector:fatal-concurrent-map-access", "the free-running pass died with a concurrent map access: %s", ora.Trunc(text, 1200))
+	} else if strings.Contains(text, "DATA RACE") {
 		fr := rxRaceFrame.FindAllStringSubmatch(text, 4)
 		var names []string
 		seen := map[string]bool{}
@@ -508,7 +519,7 @@ func init() {
 	eng.Register(&eng.Prop{
 		ID:        "C12",
 		DesignRef: "§5 C12",
-		Rule: "closed drivers with forced sharing: S-a two Apply calls on one shared tree with one shared *Options (minimal page; rich page with table, figure, embed, pager), S-b two different rich pages with shared Options, S-c three threads (S-a + a LogEverything/PageNumber call), S-d Apply(tree) || ApplyForReader(bytes), S-e two logging calls. " +
+		Rule: "closed drivers with forced sharing: S-a two Apply calls on one shared tree with one shared *Options (minimal page; rich page with table, figure, embed, pager), S-b two different rich pages with shared Options, S-c three threads (S-a + a LogEverything/PageNumber call), S-d Apply(tree) || ApplyForReader(bytes), S-e two logging calls, S-f two calls on a page whose paragraphs each sit in their own wrapper and whose root carries a legacy xmlns namespace prefix. " +
 			"Each scenario is explored by a DFS over the cooperative scheduler's choice points: V-level (scheduling points only at visible operations: package variables ever written, writes to shared trees, lock operations) without preemption bound; F-level (every function entry, loop iteration, package-variable access and node write is a scheduling point) with preemption bound 1 (bound 2 for S-a-min in thorough; in quick the two rich scenarios are explored on every 4th of 48 shards). " +
 			"Oracle on every schedule: each thread's canonical result equals its solo result; no pair of conflicting package-variable accesses from different threads without a common lock; no write to a node of a shared input tree; shared Options and trees unchanged; no panic, deadlock or horizon overrun. Plus one free-running pass of the same bodies under the Go race detector. " +
 			"Non-trivial = shards whose executions include >= 1 preemption.",
